@@ -382,9 +382,11 @@ class _Ctx:
         c = self._callee(f)
         if c.split(".")[-1] == "methodcaller" and isinstance(f, ast.Call) and len(f.args) >= 1 and isinstance(f.args[0], ast.Constant) and isinstance(f.args[0].value, str):
             return ast.Call(func=ast.Attribute(value=x, attr=f.args[0].value, ctx=ast.Load()), args=list(f.args[1:]), keywords=list(f.keywords))
-        if c.split(".")[-1] == "attrgetter" and isinstance(f, ast.Call) and len(f.args) == 1 and isinstance(f.args[0], ast.Constant) and isinstance(f.args[0].value, str) \
-                and "." not in f.args[0].value:
-            return ast.Attribute(value=x, attr=f.args[0].value, ctx=ast.Load())
+        if c.split(".")[-1] == "attrgetter" and isinstance(f, ast.Call) and len(f.args) == 1 and isinstance(f.args[0], ast.Constant) and isinstance(f.args[0].value, str):
+            out = x
+            for part in f.args[0].value.split("."):
+                out = ast.Attribute(value=out, attr=part, ctx=ast.Load())
+            return out
         if isinstance(f, ast.Lambda) and len(f.args.args) == 1 and not f.args.vararg and not f.args.kwarg and not f.args.kwonlyargs and not f.args.defaults:
             return _subst_names(f.body, {f.args.args[0].arg: x})
         return ast.Call(func=f, args=[x], keywords=[])
